@@ -31,7 +31,8 @@ func init() {
 func runC12(c *Ctx) {
 	p := c.Progs["mod"]
 	c.Rule("C12.C", "channel typestate: no send on / re-close of a closed channel", 3)
-	c.Rule("C12.B", "no endpoint blocks on a peer that may be gone", 3)
+	c.Rule("C12.B", "no endpoint blocks on a peer that may be gone", 4)
+	ruleRecordingDoesNotWait(c, p, "C12.B")
 	c.Rule("C12.N", "possibly-nil messages are nil-checked by the receiving goroutine (= C07.N)", 2)
 	ruleShimNilMessages(c, p, "C12.N")
 	c.Rule("C12.A", "every endpoint path answers once, with an allowed status", 15)
